@@ -80,6 +80,7 @@ type vGoBlockBackend struct {
 	spec       *common.Spec
 	chain      *vGoChain
 	maxSlot    common.Slot // clock + MAXIMUM_GOSSIP_CLOCK_DISPARITY
+	minSlot    common.Slot // clock - MAXIMUM_GOSSIP_CLOCK_DISPARITY (maxSlot or maxSlot-1)
 	gvr        common.Root
 	seen       bool
 	seenAsked  int
@@ -93,6 +94,9 @@ type vGoBlockBackend struct {
 func (b *vGoBlockBackend) Spec() *common.Spec  { return b.spec }
 func (b *vGoBlockBackend) Chain() beacon.Chain { return b.chain }
 func (b *vGoBlockBackend) SlotAfter(delta time.Duration) common.Slot {
+	if delta < 0 {
+		return b.minSlot // clock - disparity: may still be the previous slot
+	}
 	return b.maxSlot
 }
 func (b *vGoBlockBackend) GenesisValidatorsRoot() common.Root { return b.gvr }
@@ -197,6 +201,10 @@ func VerifHarness_C12_beacon_block() {
 		ch.towardsEntry = &vGoEntry{slot: common.Slot(uint64(blockEpoch) * 2), epc: towardsEpc, epcErr: zzverif.NondetBool()}
 	}
 	b := &vGoBlockBackend{spec: spec, chain: ch, maxSlot: common.Slot(zzverif.NondetU8()), gvr: gvr, seen: zzverif.NondetBool()}
+	b.minSlot = b.maxSlot
+	if zzverif.NondetBool() && b.maxSlot > 0 {
+		b.minSlot = b.maxSlot - 1 // within the disparity of a slot boundary
+	}
 
 	zzverif.Reach("gossip-beacon-block")
 	res := ValidateBeaconBlock(context.Background(), env, b)
